@@ -265,6 +265,76 @@ def disable_while_peer_connects_round():
     return obs
 
 
+def disable_races_peer_close_round():
+    """disable() -> disconnect() has seen the receiver thread running; the peer closes and the thread ends; only then disconnect()
+    asks the thread to stop.  After enable() the next connection must be served.  (The interleaving is forced where disconnect()
+    reads the running flag, by a property on a subclass of the connection object; everything else is the real code on loopback TCP.)"""
+    import secsgem.common.tcp_connection
+    secsgem.common.tcp_connection.TcpConnection.select_timeout = 0.02
+    port = common.own_port(8)
+    settings = secsgem.hsms.HsmsSettings(address="127.0.0.1", port=port, connect_mode=secsgem.hsms.HsmsConnectMode.PASSIVE, device_id=0)
+    proto = secsgem.hsms.HsmsProtocol(settings)
+    conn = proto._connection
+    obs = {}
+
+    def client():
+        deadline = time.monotonic() + 20
+        while True:
+            try:
+                return socket.create_connection(("127.0.0.1", port), timeout=2)
+            except OSError:
+                if time.monotonic() > deadline:
+                    raise
+                time.sleep(0.01)
+
+    def select_on(sock, system):
+        sock.sendall(frame_of(1, system))
+        sock.settimeout(20)
+        try:
+            data = sock.recv(100)
+        except OSError:
+            return False
+        return len(data) == 14 and data[9] == 2
+
+    proto.enable()
+    try:
+        s1 = client()
+        obs["first_selected"] = select_on(s1, 0x61)
+        state = {"armed": True}
+
+        class Forced(type(conn)):
+            @property
+            def _thread_running(self):
+                value = self.__dict__.get("_tr", False)
+                if state["armed"] and value and threading.current_thread().name == "_verif_deadline":
+                    state["armed"] = False
+                    s1.close()
+                    deadline = time.monotonic() + 10
+                    while self.__dict__.get("_tr") and time.monotonic() < deadline:
+                        time.sleep(0.01)
+                    return True
+                return value
+
+            @_thread_running.setter
+            def _thread_running(self, value):
+                self.__dict__["_tr"] = value
+
+        conn.__dict__["_tr"] = conn.__dict__.pop("_thread_running")
+        conn.__class__ = Forced
+        common.with_deadline(proto.disable, 30.0)
+        obs["interleaving_forced"] = not state["armed"]
+        proto.enable()
+        s2 = client()
+        obs["served_after_enable"] = select_on(s2, 0x62)
+        s2.close()
+    finally:
+        try:
+            common.with_deadline(proto.disable, 15.0)
+        except common.Wedged:
+            obs["final_disable_hung"] = True
+    return obs
+
+
 def disable_while_connect_succeeds_round():
     """The same moment on an ACTIVE endpoint: nobody listens, the connect thread retries; disable() sees the thread alive, the peer
     starts listening, the next attempt succeeds and the thread ends, then disable() asks it to stop.  disable() must return."""
@@ -577,6 +647,9 @@ def run(tier, replay=None):
                 report.violation({"kind": "counterexample", "what": "one run of _process_send_queue left a queued block unresolved although the connection answered every write", **qraws[i]}, True, tag="queue")
                 break
             queue_model_bad.append((i, m))
+    race3_obs = common.guarded(disable_races_peer_close_round, "disable() racing with the peer's close, then enable() and a new connection", awedged, 120.0)
+    if race3_obs is not None and not (race3_obs.get("first_selected") and race3_obs.get("served_after_enable") and not race3_obs.get("final_disable_hung")):
+        report.violation({"kind": "counterexample", "what": "after a disable() that raced with the peer's close, the connection that followed the next enable() was not served", **race3_obs}, True, tag="staleflag")
     # the same over real sockets (TcpServerConnection on the loopback interface)
     tcp_obs = []
     st = streams(rnd)[0]
@@ -625,6 +698,7 @@ def run(tier, replay=None):
     cov["active_reconnect_rounds"] = active_obs
     cov["disable_while_peer_connects"] = race_obs
     cov["disable_while_connect_succeeds"] = race2_obs
+    cov["disable_races_peer_close"] = race3_obs
     cov["tcp_rounds"] = {"count": len(tcp_obs), "max_disable_seconds": max([o.get("disable_seconds", 0) for o in tcp_obs] + [o.get("final_disable_seconds", 0) for o in tcp_obs] + [0])}
     cov["distribution"] = {"streams": dict(Counter(c[0] for c in cases)), "ended_by": dict(Counter(c[4] for c in cases)), "selected": dict(Counter(str(c[3]) for c in cases))}
     cov["samples"] = [f"stream {c[0]} cut {c[2]} selected={c[3]} {c[4]}" for c in cases[:: max(1, len(cases) // 6)][:6]]
